@@ -7,13 +7,15 @@ namespace Driver.HashMeta
 structure St where
   b4 : P4.Bucket := P4.Bucket.new 4 4 1
   b2 : O2.Bucket := O2.Bucket.new 3
+  acc : Nat := 0     -- full-getter calls of the older table generations of one relocation (`growacc`)
 
 def b2i (b : Bool) : Nat := if b then 1 else 0
 
-/-- flatten the closure chain of a byte array (keeps long histories fast) -/
-def freeze (n dflt : Nat) (f : Nat → Nat) : Nat → Nat :=
-  let arr := ((List.range n).map f).toArray
-  fun j => arr.getD j dflt
+/-- a byte array as a function -/
+def ofArray (arr : Array Nat) (dflt : Nat) : Nat → Nat := fun j => arr.getD j dflt
+
+/-- flatten the closure chain of a byte array (keeps long histories fast); the array is computed by the caller -/
+@[noinline] def snapshot (n : Nat) (f : Nat → Nat) : Array Nat := ((List.range n).map f).toArray
 
 def showB4 (b : P4.Bucket) : String :=
   s!"c={b.count} m={b.mpi} f={b2i b.isFull} w={b2i b.wasFull} n={b2i b.nonnull} | {joinNat ((List.range b.hc).map b.sh)}"
@@ -30,6 +32,12 @@ def partSweep (useFull : Nat → Bool) (dec : Nat) (Lmin Lmax : Nat) : String :=
     if useFull (Lmin + j) then mask := mask + 2 ^ j else any := true
   return s!"{mask} {if any then toString dec else "-"}"
 
+def fullCount (kind : String) (L L' : Nat) (bytes : List String) : Nat :=
+  (bytes.filter (fun b =>
+    if kind == "p4" then P4.useFull (nat! b) L L'
+    else if kind == "o2" then O2.useFull (nat! b) L L'
+    else false)).length
+
 def step (s : St) : List String → St × String
   | ["p4enc", h, L, p] => (s, s!"{P4.encByte (nat! h) (nat! L) (nat! p)} {P4.shortHash (nat! h)}")
   | ["p4part", byte, short, idx, L, Lmin, Lmax] =>
@@ -44,11 +52,13 @@ def step (s : St) : List String → St × String
       ({ s with b4 := b }, showB4 b)
   | ["b4", "add", h, L, p] =>
       let b := s.b4.addCrt (nat! h) (nat! L) (nat! p)
-      let b := { b with sh := freeze b.hc 255 b.sh }
+      let arr := snapshot b.hc b.sh
+      let b := { b with sh := ofArray arr 255 }
       ({ s with b4 := b }, showB4 b)
   | ["b4", "rem", index] =>
       let b := s.b4.remove (nat! index)
-      let b := { b with sh := freeze b.hc 255 b.sh }
+      let arr := snapshot b.hc b.sh
+      let b := { b with sh := ofArray arr 255 }
       ({ s with b4 := b }, showB4 b)
   | ["b4", "part", index, idx, L, L'] =>
       let byte := s.b4.sh (s.b4.hc - 1 - nat! index)
@@ -59,11 +69,15 @@ def step (s : St) : List String → St × String
       ({ s with b2 := b }, showB2 b)
   | ["b2", "add", h, L, p] =>
       let b := s.b2.addCrt (nat! h) (nat! L) (nat! p)
-      let b := { b with sh := freeze b.maxCount 128 b.sh, hp := freeze b.maxCount 0 b.hp }
+      let a1 := snapshot b.maxCount b.sh
+      let a2 := snapshot b.maxCount b.hp
+      let b := { b with sh := ofArray a1 128, hp := ofArray a2 0 }
       ({ s with b2 := b }, showB2 b)
   | ["b2", "rem", index] =>
       let b := s.b2.remove (nat! index)
-      let b := { b with sh := freeze b.maxCount 128 b.sh, hp := freeze b.maxCount 0 b.hp }
+      let a1 := snapshot b.maxCount b.sh
+      let a2 := snapshot b.maxCount b.hp
+      let b := { b with sh := ofArray a1 128, hp := ofArray a2 0 }
       ({ s with b2 := b }, showB2 b)
   | ["b2", "part", index, idx, L, L'] =>
       (s, if O2.useFull (s.b2.hp (nat! index)) (nat! L) (nat! L') then "F"
@@ -71,13 +85,12 @@ def step (s : St) : List String → St × String
   | ["one", "state", sz, h] => (s, toString (One.hashState (nat! sz) (nat! h)))
   | ["one", "part", sz, state] =>
       (s, if nat! sz < 8 then "F" else toString (One.getHashCodePart (nat! sz) (nat! state) 0))
-  -- table level: how many of the listed elements make `pvRelocateItems` evaluate the hash function
+  -- table level: how many of the listed elements make `pvRelocateItems` evaluate the hash function;
+  -- `growacc` lines (older generations of the same relocation) are summed into the following `grow` line
+  | "growacc" :: kind :: L :: L' :: bytes =>
+      ({ s with acc := s.acc + fullCount kind (nat! L) (nat! L') bytes }, "-")
   | "grow" :: kind :: L :: L' :: bytes =>
-      let full := fun (b : String) =>
-        if kind == "p4" then P4.useFull (nat! b) (nat! L) (nat! L')
-        else if kind == "o2" then O2.useFull (nat! b) (nat! L) (nat! L')
-        else false
-      (s, toString (bytes.filter full).length)
+      ({ s with acc := 0 }, toString (s.acc + fullCount kind (nat! L) (nat! L') bytes))
   | _ => (s, "bad-op")
 
 def engine : Engine := { σ := St, init := fun _ => {}, step := step }
